@@ -22,6 +22,10 @@ def pivot():
         lits = ["s%d" % n, "mid%d" % n, "longest%d" % n]
         kinds = [dict(), dict(fields=[Field("u8")]), dict(fields=[Field("u16", name="x")], named=True)]
         vs.append(U("P%d" % n, serialize=[lits[i] for i in perm], **kinds[n % 3]))
+    S.append(EnumSpec("ViaMacro", [U("Red", serialize=["r", "red"]), U("Blue", fields=[Field("u8")], to_string="blu", serialize=["b"]),
+                                   U("Green", fields=[Field("u16", name="x")], named=True), U("Longer", serialize=["lo", "longer-one"])],
+                      macro_args=[("s", "literal", '"red"'), ("b", "literal", '"blu"'), ("t", "ty", "u16"), ("l", "literal", '"longer-one"')], macro_replace=True,
+                      note="the definition is the body of a macro_rules! macro: spellings arrive as $x:literal fragments, a field type as $t:ty"))
     S.append(EnumSpec("Orders", vs, note="serialize literals (short, mid, long) in all 6 orders over the three variant kinds"))
     S.append(EnumSpec("TsVsSer", [
         U("A", to_string="ts", serialize=["much_longer_than_ts"]),
